@@ -87,18 +87,27 @@ def real_all(evs, max_order, mode="auto"):
 
 
 # ------------------------------------------------------------------ generators
-def gen_event(rng, lo, hi, dyadic=True):
+def gen_event(rng, lo, hi, dyadic=True, wscale=1.0, ptscale=1.0, mode=None):
+    """wscale / ptscale: powers of two multiplying every set weight / every pT (exact in binary floating point):
+    the defining ratios are homogeneous, so any hidden absolute tolerance or threshold in the code shows"""
     m = rng.randint(lo, hi)
     ev = []
-    mode = rng.choice(["unset", "set", "mixed"])
+    mode = mode or rng.choice(["unset", "set", "mixed"])
     for _ in range(m):
-        pt = rng.randint(1, 40) / 8.0 if dyadic else rng.uniform(0.1, 5.0)
+        pt = (rng.randint(1, 40) / 8.0 if dyadic else rng.uniform(0.1, 5.0)) * ptscale
         if mode == "unset" or (mode == "mixed" and rng.random() < 0.5):
             w = None
         else:
-            w = rng.randint(1, 16) / 8.0 if dyadic else rng.uniform(0.2, 2.0)
+            w = (rng.randint(1, 16) / 8.0 if dyadic else rng.uniform(0.2, 2.0)) * wscale
         ev.append((w, pt))
     return ev
+
+
+SCALES = [0, 0, 0, -3, -6, -9, -12, -16, -24, 4, 8, 16, 24]
+
+
+def gen_scale(rng):
+    return 2.0 ** rng.choice(SCALES)
 
 
 def enc_event(ev):
@@ -148,7 +157,7 @@ def oracle_check(evs, max_order, rel=1e-6, mode="fresh"):
             return (f"corr-order-{k}", f"mean_pT_correlations order {k}: code {c[k-1]!r} != distinct-tuple definition {float(n/d)!r}",
                     dict(order=k, code=c[k - 1], expected=float(n / d)))
     kex = exact_cumulants(Cex)
-    scale = [max(1.0, abs(float(Cex[0])) ** (k + 1)) for k in range(max_order)]
+    scale = [abs(float(Cex[0])) ** (k + 1) for k in range(max_order)]  # kappa_k is homogeneous of degree k in pT
     for k in range(max_order):
         if abs(kap[k] - float(kex[k])) > 1e-6 * max(scale[k], abs(float(kex[k]))) * (10 ** k if k > 3 else 1):
             return (f"kappa-order-{k+1}", f"mean_pT_cumulants order {k+1}: code {kap[k]!r} != cumulant of the defining correlations {float(kex[k])!r}",
@@ -173,9 +182,14 @@ def correspond(ctx):
         else:
             mo = rng.randint(1, 8)
             nev = rng.randint(1, 4)
-            evs = [gen_event(rng, mo, 12, dyadic=rng.random() < 0.7) for _ in range(nev)]
-            if rng.random() < 0.3:
-                evs.insert(rng.randrange(len(evs) + 1), gen_event(rng, 0, max(0, mo - 1)))  # too-small event contributes 0
+            # one exact power-of-two scale for all set weights of the sample (unset weights count 1, so a scaled sample has
+            # every weight set): the arithmetic of code and model is then the unscaled one, shifted in the exponent
+            ws, ps = gen_scale(rng), gen_scale(rng)
+            evs = [gen_event(rng, mo, 12, dyadic=rng.random() < 0.7, wscale=ws, ptscale=ps, mode=None if ws == 1.0 else "set")
+                   for _ in range(nev)]
+            if rng.random() < 0.3:  # too-small event contributes 0
+                evs.insert(rng.randrange(len(evs) + 1), gen_event(rng, 0, max(0, mo - 1), wscale=ws, ptscale=ps,
+                                                                  mode=None if ws == 1.0 else "set"))
             lines.append(f"all\t{mo}\t" + "|".join(enc_event(e) for e in evs))
             meta.append(("all", mo, evs))
     outs = common.run_driver("C13", lines)
@@ -204,7 +218,7 @@ def correspond(ctx):
             if ok:
                 cs, ks = (common.parse_fl(t) for t in out.split()[1:3])
                 ok = all(close(a, b, rel=1e-7) for a, b in zip(c, cs)) and \
-                    all(close(a, b, rel=1e-6, abs_=1e-7 * max(1.0, abs(c[0])) ** (i + 1) * 10 ** i) for i, (a, b) in enumerate(zip(kap, ks)))
+                    all(close(a, b, rel=1e-6, abs_=1e-7 * abs(c[0]) ** (i + 1) * 10 ** i) for i, (a, b) in enumerate(zip(kap, ks)))
             mults = {len(e) for e in data}
             nontriv = len(mults) > 1 or any(w is not None for e in data for w, _ in e)
             ctx.case(("all", k, tuple(tuple(e) for e in data)), nontriv,
@@ -229,10 +243,19 @@ def search(ctx, budget_s):
     while time.time() - t0 < budget_s and n < (4000 if ctx.thorough else 400):
         mo = 8 if rng.random() < 0.6 else rng.randint(1, 8)
         nev = rng.choice([1, 2, 2, 3])
-        evs = [gen_event(rng, mo, mo + rng.randint(0, 4)) for _ in range(nev)]
+        ws, ps = gen_scale(rng), gen_scale(rng)
+        evs = [gen_event(rng, mo, mo + rng.randint(0, 4), wscale=ws, ptscale=ps, mode=None if ws == 1.0 else "set")
+               for _ in range(nev)]
         r = oracle_check(evs, mo, mode="auto")
         n += 1
         ctx.case(("oracle", mo, tuple(tuple(e) for e in evs)), True)
+        ctx.count(f"oracle/wscale=2^{int(math.log2(ws))}/ptscale=2^{int(math.log2(ps))}")
+        if r is None and n % 3 == 0:
+            r = homogeneity_check(rng, mo)
+            if r:
+                ctx.violation(r[0], r[1], dict(input=dict(events=r[2]["events"], max_order=mo), detail=r[2],
+                                               how_to_replay="./check C13 --replay <this file>"))
+                break
         if r:
             fresh = oracle_check(evs, mo, mode="fresh")
             if fresh is None:
@@ -249,6 +272,28 @@ def search(ctx, budget_s):
             break
     ctx.cov["oracle_cases"] = n
     ctx.count("oracle", n)
+
+
+def homogeneity_check(rng, mo):
+    """all weights set: multiplying every weight by 2^a and every pT by 2^b (exact) must leave C_k * 2^(-b k) unchanged
+    up to rounding noise; returns a violation triple for the scaled sample when the unscaled one is right"""
+    nev = rng.choice([1, 2, 3])
+    base = [gen_event(rng, mo, mo + rng.randint(0, 3), mode="set") for _ in range(nev)]
+    a, b = rng.choice([-30, -20, -12, -6, 6, 12, 20, 30]), rng.choice([-20, -8, 0, 0, 8, 20])
+    scaled = [[(w * 2.0 ** a, pt * 2.0 ** b) for w, pt in e] for e in base]
+    if oracle_check(base, mo, mode="fresh") is not None:
+        return None  # the plain sample is already wrong: reported by the ordinary path
+    c0, _ = real_all(base, mo, "fresh")
+    c1, _ = real_all(scaled, mo, "fresh")
+    for k in range(mo):
+        want = c0[k] * 2.0 ** (b * (k + 1))
+        if not ((want != want and c1[k] != c1[k]) or close(c1[k], want, rel=1e-9)):
+            r = oracle_check(scaled, mo, mode="fresh")
+            key = r[0] if r else f"corr-order-{k+1}"
+            return (key + "-scaled", f"weights x 2^{a}, pT x 2^{b}: order {k+1} correlation {c1[k]!r}, "
+                    f"the unscaled sample gives {c0[k]!r} (expected {want!r}: the definition is homogeneous)",
+                    dict(events=scaled, unscaled=base, order=k + 1, code=c1[k], expected=want))
+    return None
 
 
 def shrink(evs, mo, key):
